@@ -888,7 +888,7 @@ void TasgridWrapper::printMatrix(int rows, int cols, const double mat[], bool is
     cout.precision(17);
     cout << std::scientific;
     size_t cols_t = (size_t) cols;
-    Utils::Wrapper2D<const double> matrix(cols, mat);
+    Utils::Wrapper2D<const double> matrix((isComplex) ? 2 * cols : cols, mat); // a row of complex entries holds 2 * cols doubles
     for(int i=0; i<rows; i++){
         double const * r = matrix.getStrip(i);
         if (isComplex){
